@@ -4,6 +4,8 @@ import (
 	"bytes"
 	"encoding/json"
 	"fmt"
+	"runtime"
+	"time"
 
 	"github.com/free5gc/ike/eap"
 
@@ -20,6 +22,7 @@ type c16Case struct {
 	ID    int  `json:"identity_len"`
 	Pat   int  `json:"identity_pattern"`
 	Shift bool `json:"shifted_followup"` // a second derivation whose CK'/identity boundary is moved by one octet (same concatenation)
+	GC    bool `json:"held_across_gc,omitempty"`
 }
 
 func c16Identity(n, pat int) []byte {
@@ -131,6 +134,26 @@ func evalC16(c *engine.Ctx, cs c16Case) {
 	}
 	c.Distinct(engine.Hash64(ke, emsk))
 	c.Sample("prf'", map[string]interface{}{"case": cs, "K_encr": engine.Hex(ke)})
+	// the caller keeps the keys: they are still the keys after the collector (and any finalizer) has run
+	if cs.GC || (cs.IK*7+cs.CK*3+cs.ID)%89 == 0 {
+		for k := 0; k < 3; k++ {
+			runtime.GC()
+			runtime.Gosched()
+			time.Sleep(time.Millisecond)
+		}
+		for _, x := range []struct {
+			n    string
+			g, w []byte
+		}{{"K_encr", ke, wke}, {"K_aut", ka, wka}, {"K_re", kr, wkr}, {"MSK", msk, wmsk}, {"EMSK", emsk, wemsk}} {
+			if !bytes.Equal(x.g, x.w) {
+				y := cs
+				y.GC = true
+				c.Violate("key/changed-while-held/"+x.n, fmt.Sprintf("|IK'|=%d |CK'|=%d identity %d octets: %s was correct when returned and reads %x after garbage collections", cs.IK, cs.CK, cs.ID, x.n, trunc(x.g, 16)), y)
+				return
+			}
+		}
+		c.Count("held_across_gc", 1)
+	}
 	// related second derivation in the same process: the last CK' octet moves into the identity, so that
 	// IK'|CK'|identity is the same octet string with a different boundary (a memo keyed without separators)
 	if cs.CK >= 2 && (cs.Shift || (cs.IK+cs.CK+cs.ID)%5 == 0) {
